@@ -21,7 +21,7 @@ import (
 //	(b) a *Token obtained from Peek / Shift is only valid until the next Peek (which may move or
 //	    reallocate the buffer): it is never stored into heap memory.
 func (c *Ctx) tokenBuffer(rule, rel string) {
-	c.R.Rule(rule, "package "+rel+", TokenBuffer (one of three sibling copies of the look-ahead buffer): (a) in Peek every path from the entry to an assignment that resets the read position (`z.pos, z.buf = 0, buf` / `z.pos = 0`) passes a copy(…, z.buf[z.pos:]) that moves the unread tokens to the front — on a path without it tokens that were never consumed are overwritten by newly read ones and consumed tokens are replayed (a processing instruction or start tag disappears from the output); (b) SSA: no value returned by (*TokenBuffer).Peek or Shift is stored into memory other than a local variable — the next Peek may reallocate the buffer, and a pointer kept in a slice or field then refers to the abandoned array (edits made through it never reach the output); (c) a field slice that is reused by reslicing (`z.attrBuffer = z.attrBuffer[:n]`) still holds what the previous call put there: every path from the reslice to a return passes a range loop over that slice whose body unconditionally stores into the element of the range key (the reset to nil) — otherwise an attribute that is absent on this tag is reported with the token of an earlier tag, and the caller edits or deletes an unrelated attribute; (d) a token bound to the result of Peek is looked at, not rewritten: no statement of the package assigns the Data of such a token — its bytes are the input until its own case of the token switch handles it (`<pre>\\n\\ncode`: one line break removed in advance, the next one by the parser); (e) where Peek cuts the new buffer at an error token (`buf = buf[:i+1]`), the index of the element it returns is set to that token (`pos = i`) on every path to the return and not moved afterwards — a look-ahead beyond the end of the input otherwise indexes past the buffer")
+	c.R.Rule(rule, "package "+rel+", TokenBuffer (one of three sibling copies of the look-ahead buffer): (a) in Peek every path from the entry to an assignment that resets the read position (`z.pos, z.buf = 0, buf` / `z.pos = 0`) passes a copy(…, z.buf[z.pos:]) that moves the unread tokens to the front — on a path without it tokens that were never consumed are overwritten by newly read ones and consumed tokens are replayed (a processing instruction or start tag disappears from the output); (b) SSA: no value returned by (*TokenBuffer).Peek or Shift is stored into memory other than a local variable — the next Peek may reallocate the buffer, and a pointer kept in a slice or field then refers to the abandoned array (edits made through it never reach the output); (c) a field slice that is reused by reslicing (`z.attrBuffer = z.attrBuffer[:n]`) still holds what the previous call put there: every path from the reslice to a return passes a range loop over that slice whose body unconditionally stores into the element of the range key (the reset to nil) — otherwise an attribute that is absent on this tag is reported with the token of an earlier tag, and the caller edits or deletes an unrelated attribute; (d) a token bound to the result of Peek is looked at, not rewritten: no statement of the package assigns the Data of such a token — its bytes are the input until its own case of the token switch handles it (`<pre>\\n\\ncode`: one line break removed in advance, the next one by the parser); (e) where Peek cuts the new buffer at an error token (`buf = buf[:i+1]`), the index of the element it returns is set to that token (`pos = i`) on every path to the return and not moved afterwards — a look-ahead beyond the end of the input otherwise indexes past the buffer; (f) the slots of the buffer are reused, so TokenBuffer.read, which fills a slot, assigns every field it assigns at all on every path to its exit — a field set for tags and attributes only (Traits, Hash, AttrVal) otherwise keeps the value of the token that used the slot before, and a text or svg token is taken for a block element")
 	pk := c.pkg(rule, rel)
 	if pk == nil {
 		return
@@ -29,6 +29,7 @@ func (c *Ctx) tokenBuffer(rule, rel string) {
 	c.staleScratch(rule, pk)
 	c.peekedTokensReadOnly(rule, pk)
 	c.peekIndexClamped(rule, pk)
+	c.tokenSlotFullyRewritten(rule, pk)
 	fd := c.fn(rule, pk, "TokenBuffer.Peek")
 	if fd != nil {
 		g := c.graph(pk, fd)
@@ -632,4 +633,48 @@ func (c *Ctx) peekIndexClamped(rule string, pk *packages.Package) {
 		c.R.Check(p == nil && !moved, rule, fmt.Sprintf("%s.TokenBuffer.Peek/index clamped when the input ends early#%d", pk.Name, n), c.pos(as), posName+" = "+idx+" before the element is returned", "the buffer is cut at the error token but the requested index is not moved onto it: a look-ahead of two tokens at the end of the input (`<svg><defs`) indexes past the buffer and the minifier panics")
 	}
 	c.R.Floor(rule, "early ends of the read loop in Peek", n, 1)
+}
+
+// tokenSlotFullyRewritten: clause (f) of the token buffer rule.
+func (c *Ctx) tokenSlotFullyRewritten(rule string, pk *packages.Package) {
+	fd := c.fn(rule, pk, "TokenBuffer.read")
+	if fd == nil {
+		return
+	}
+	if fd.Type.Params == nil || len(fd.Type.Params.List) != 1 || len(fd.Type.Params.List[0].Names) != 1 {
+		c.R.Unres(rule, pk.Name+".TokenBuffer.read/token parameter", c.pos(fd), "read does not take one token parameter")
+		return
+	}
+	tok := fd.Type.Params.List[0].Names[0].Name
+	g := c.graph(pk, fd)
+	fields := map[string]bool{}
+	assigns := func(q *flow.Node, f string) bool {
+		as, ok := q.Stmt.(*ast.AssignStmt)
+		if !ok || q.Kind != flow.KStmt {
+			return false
+		}
+		for _, l := range as.Lhs {
+			if nospace(str(l)) == tok+"."+f {
+				return true
+			}
+		}
+		return false
+	}
+	for _, y := range g.Nodes {
+		if as, ok := y.Stmt.(*ast.AssignStmt); ok && y.Kind == flow.KStmt {
+			for _, l := range as.Lhs {
+				if sel, ok := l.(*ast.SelectorExpr); ok && nospace(str(sel.X)) == tok {
+					fields[sel.Sel.Name] = true
+				}
+			}
+		}
+	}
+	n := 0
+	for _, f := range sortedKeys(fields) {
+		f := f
+		n++
+		p := g.Path(flow.Search{From: []*flow.Node{g.Entry}, IncludeFrom: true, Goal: func(q *flow.Node) bool { return q == g.Exit || retStmt(q) != nil }, Avoid: func(q *flow.Node) bool { return assigns(q, f) }})
+		c.R.Check(p == nil, rule, fmt.Sprintf("%s.TokenBuffer.read/%s.%s assigned on every path", pk.Name, tok, f), c.pos(fd), "every path to the exit assigns the field", "the field "+f+" of the reused slot is not assigned for every kind of token ("+pathStr(c, g, p)+"): such a token keeps the "+f+" of whatever token used the slot before — a text or svg token is then taken for a block element, or an attribute value for the previous one's")
+	}
+	c.R.Floor(rule, "token fields assigned by read", n, 3)
 }
